@@ -124,7 +124,9 @@ class CtxAcc(object):
     def _results(self):
         for v in self.got:
             data = (self.tag, v)
-            if self.mode == "bare":
+            if self.mode == "raw":
+                yield v         # the stored value itself (None included) is the result
+            elif self.mode == "bare":
                 yield data
             elif self.mode == "same":
                 yield (data, {"common": 1, "v": v})
